@@ -590,4 +590,48 @@ def bounded_e2e(tier, seed):
     return guarded(p, _check_e2e, tier, seed)
 
 
-BOUNDED = [bounded_summary, bounded_observer, bounded_remove, bounded_glue, bounded_e2e]
+def _check_select_sampled(part: Part, tier, seed):
+    """The contract of _select_minimal_assertions on sampled kill maps that are larger than the native search's default scope
+    (up to 6 assertions over 8 mutants): needed when a change takes the function out of the verifier's subset."""
+    import random
+    from pynguin.assertion.assertiongenerator import _select_minimal_assertions
+    rnd = random.Random(seed)
+    n = 300000 if tier == "thorough" else 40000
+    for _ in range(n):
+        nk = rnd.randint(2, 6)
+        km = {(i // 2, i % 2): set(rnd.sample(range(8), rnd.randint(0, 4))) for i in rnd.sample(range(8), nk)}
+        part.case(any(km.values()))
+        snapshot = {k: set(v) for k, v in km.items()}
+        try:
+            kept = _select_minimal_assertions(km)
+        except Exception as e:  # noqa: BLE001
+            part.violation("_select_minimal_assertions returns for every kill map", "select-raises",
+                           {"kill_map": repr(snapshot), "error": f"{type(e).__name__}: {e}"[:200]}, target=F)
+            return
+        all_killed = set().union(*snapshot.values()) if snapshot else set()
+        kept_killed = set().union(*[snapshot[k] for k in kept if k in snapshot]) if kept else set()
+        bad = None
+        if not set(kept) <= set(snapshot):
+            bad = "a kept key is not an assertion of the kill map"
+        elif kept_killed != all_killed:
+            bad = "the kept assertions do not kill every mutant the full set kills"
+        elif any(not snapshot[k] for k in kept):
+            bad = "an assertion that kills nothing is kept"
+        elif km != snapshot:
+            bad = "the kill map was changed"
+        if bad:
+            part.violation("the kept assertions kill exactly the mutants the full assertion set kills", "select-minimal",
+                           {"kill_map": repr(snapshot), "kept": repr(sorted(kept)), "lost_mutants": sorted(all_killed - kept_killed), "what": bad},
+                           target=F)
+            return
+
+
+def bounded_select(tier, seed):
+    p = Part("C21", "select-minimal-sampled", [F],
+             scope="%d seeded random kill maps (2-6 assertions, kill sets of 0-4 out of 8 mutants) against the function's contract; the "
+                   "unbounded statement is the proof of the same function" % (300000 if tier == "thorough" else 40000),
+             bound="assertions <= 6, mutants <= 8; sampled, not exhaustive")
+    return guarded(p, _check_select_sampled, tier, seed)
+
+
+BOUNDED = [bounded_summary, bounded_observer, bounded_remove, bounded_glue, bounded_e2e, bounded_select]
